@@ -29,16 +29,17 @@ import zipfile
 DEP = 'foo'
 SUB = 'sub'
 VAR = 'foo_dep'
-SYSTEM_VERSIONS = ('1.0', '2.0')
+SYSTEM_VERSIONS = ('1.0', '2.0', 'unknown')   # 'unknown': foo.pc with an empty Version: field
 SUB_VERSIONS = {'lo': '1.1', 'hi': '2.1'}
 OVR_VERSIONS = {'lo': '1.2', 'hi': '2.2'}
 
 # ------------------------------------------------------------------------------------------------
 # Part A
 # ------------------------------------------------------------------------------------------------
+MULTI = ('<2.0', '!=0.3')     # an array of restrictions, upper bound / inequality only
 A_FACTORS: T.Dict[str, T.Tuple] = {
-    'system': (None, '1.0', '2.0'),
-    'constraint': (None, '>=2', '<2'),
+    'system': (None, '1.0', '2.0', 'unknown'),
+    'constraint': (None, '>=2', '<2', MULTI),
     'fb': ('none', 'explicit', 'provide', 'configured', 'override', 'override_sub'),
     'wrap_mode': ('default', 'nofallback', 'nodownload', 'forcefallback'),
     'fff': ('none', 'dep', 'sub'),
@@ -107,10 +108,14 @@ def a_core_table(rng: random.Random) -> T.List[dict]:
     return out
 
 
-def _sat(version: str, con: T.Optional[str]) -> bool:
+def _sat(version: str, con: T.Any) -> bool:
     if con is None:
         return True
+    if version == 'unknown':
+        return False            # "These requirements are never met if the version is unknown."
     major = int(version.split('.')[0])
+    if isinstance(con, (list, tuple)):
+        return major < 2
     return major >= 2 if con == '>=2' else major < 2
 
 
@@ -122,6 +127,8 @@ def a_cell_to_world(cell: dict) -> dict:
           'allow_fallback': cell['allow_fallback'], 'explicit': fb == 'explicit',
           'eform': cell.get('eform', 'pair') if sub_overrides else 'pair', 'afform': cell.get('afform', 'kw'),
           'static': cell.get('static')}
+    nfm = cell.get('nfm', 0)      # the cosmetic kwarg on: nothing / the repetition only / both / the first only
+    first, second = dict(lk, nfm=nfm in (2, 3)), dict(lk, nfm=nfm in (1, 2))
     return {
         'main_dl': cell.get('main_dl', 'shared'),
         'sub_dl_how': cell.get('sub_dl_how', 'same') if fb in ('explicit', 'provide', 'configured', 'override_sub') else 'same',
@@ -134,13 +141,13 @@ def a_cell_to_world(cell: dict) -> dict:
         'pre': {'configured': 'configured', 'override': 'override', 'override_sub': 'override_sub'}.get(fb, 'none'),
         'pver': cell['pver'],
         'optstyle': cell.get('optstyle', 'D'),
-        'seq': [lk, dict(lk)],
+        'seq': [first, second],
     }
 
 
 LOOKUP_ALPHABET: T.List[dict] = [
     {'constraint': c, 'required': r, 'allow_fallback': a, 'explicit': e, 'eform': 'pair', 'afform': 'kw'}
-    for c in (None, '>=2', '<2') for r in (False, True) for a in (None, True, False) for e in (False, True)
+    for c in (None, '>=2', '<2', MULTI) for r in (False, True) for a in (None, True, False) for e in (False, True)
     if not (e and a is not None)
 ]
 
@@ -162,6 +169,7 @@ def a_sequence_worlds(rng: random.Random, n: int) -> T.List[dict]:
             if l['allow_fallback'] is False:
                 l['afform'] = rng.choice(['kw', 'emptyfb'])
             l['static'] = rng.choice([None, None, True, False])
+            l['nfm'] = rng.random() < 0.35
         if rng.random() < 0.5:
             seq[-1] = dict(seq[0])       # A, B, A
         # only the last lookup may be required: an error ends the configuration
@@ -169,7 +177,7 @@ def a_sequence_worlds(rng: random.Random, n: int) -> T.List[dict]:
             if l['required'] and rng.random() < 0.7:
                 l['required'] = False
         out.append({
-            'system': rng.choice([None, '1.0', '2.0']),
+            'system': rng.choice([None, '1.0', '2.0', 'unknown']),
             'wrap_mode': rng.choice(A_FACTORS['wrap_mode']), 'fff': rng.choice(A_FACTORS['fff']),
             **random_dl(rng, sub),
             'provide': provide, 'sub_overrides': sub_overrides,
@@ -212,12 +220,52 @@ def a_static_table(rng: random.Random, full: bool = False) -> T.List[dict]:
                             cell = {'system': system, 'constraint': None, 'fb': fb, 'wrap_mode': 'default', 'fff': 'none',
                                     'required': req, 'allow_fallback': None if fb == 'explicit' else rng.choice([None, True]),
                                     'pver': rng.choice(['lo', 'hi']), 'static': static, 'main_dl': main,
-                                    'sub_dl_how': how, 'sub_dl_value': val, 'optstyle': rng.choice(['D', 'long'])}
+                                    'sub_dl_how': how, 'sub_dl_value': val, 'optstyle': rng.choice(['D', 'long']),
+                                    'nfm': rng.choice([0, 0, 1, 2, 3])}
                             cell.update(extra)
                             if rng.random() < 0.3:
                                 cell['wrap_mode'] = rng.choice(A_FACTORS['wrap_mode'])
                                 cell['fff'] = rng.choice(A_FACTORS['fff'])
                             out.append(cell)
+    return out
+
+
+VERSION_CONSTRAINTS = (None, '<2.0', '<=2.0', '!=1.0', MULTI, '>=2.0', '>1.0', ('>=1.0', '<2.0'))
+
+
+def a_version_table(rng: random.Random, full: bool = False) -> T.List[dict]:
+    """Version of the system dependency {1.0, 2.0, unknown (empty Version: field)} x constraint shapes (upper bounds,
+    inequalities, arrays, lower bounds) x link kind x required: "These requirements are never met if the version
+    is unknown"."""
+    out = []
+    for system in ('unknown', '1.0', '2.0'):
+        for con in VERSION_CONSTRAINTS:
+            for fb in ('none', 'explicit', 'provide'):
+                for req in ((True, False) if (full or system == 'unknown') else (rng.choice([True, False]),)):
+                    for pver in (('lo', 'hi') if full else (rng.choice(['lo', 'hi']),)):
+                        out.append({'system': system, 'constraint': con, 'fb': fb, 'wrap_mode': 'default', 'fff': 'none',
+                                    'required': req, 'allow_fallback': None if fb != 'provide' else rng.choice([None, True]),
+                                    'pver': pver, 'nfm': rng.choice([0, 1, 2, 3]), 'sub_overrides': rng.random() < 0.5,
+                                    'eform': rng.choice(['pair', 'single']), 'optstyle': rng.choice(['D', 'long'])})
+    return out
+
+
+def a_unknown_version_sequences(rng: random.Random, n: int) -> T.List[dict]:
+    """An unknown-version system dependency looked up first WITHOUT a constraint (found, remembered), then with one:
+    the remembered dependency must not satisfy it either."""
+    out = []
+    cons = [c for c in VERSION_CONSTRAINTS if c is not None]
+    for i in range(n):
+        fb = ('none', 'explicit', 'provide')[i % 3]
+        mk = lambda con, req: {'constraint': con, 'required': req, 'allow_fallback': None, 'explicit': fb == 'explicit',  # noqa: E731
+                               'eform': 'pair', 'afform': 'kw', 'static': None, 'nfm': rng.random() < 0.3}
+        seq = [mk(None, False), mk(cons[i % len(cons)], False)]
+        if rng.random() < 0.5:
+            seq.append(mk(rng.choice(cons), rng.random() < 0.3))
+        out.append({'system': 'unknown', 'wrap_mode': rng.choice(['default', 'default', 'nodownload', 'nofallback']),
+                    'fff': 'none', 'main_dl': 'shared', 'sub_dl_how': 'same', 'sub_dl_value': None,
+                    'provide': fb == 'provide', 'sub_overrides': False, 'sub_download': False, 'sub': fb != 'none',
+                    'pre': 'none', 'pver': rng.choice(['lo', 'hi']), 'optstyle': rng.choice(['D', 'long']), 'seq': seq})
     return out
 
 
@@ -227,7 +275,8 @@ def a_reconfigure_worlds(rng: random.Random, n: int) -> T.List[dict]:
     out = []
     for _ in range(n):
         fb = rng.choice(['explicit', 'provide', 'provide', 'none'])
-        cell = {'system': rng.choice([None, '1.0', '2.0', '2.0']), 'constraint': rng.choice([None, None, '>=2', '<2']),
+        cell = {'system': rng.choice([None, '1.0', '2.0', '2.0', 'unknown']),
+                'constraint': rng.choice([None, None, '>=2', '<2', MULTI]), 'nfm': rng.choice([0, 0, 1, 2, 3]),
                 'fb': fb, 'wrap_mode': rng.choice(A_FACTORS['wrap_mode']), 'fff': rng.choice(A_FACTORS['fff']),
                 'required': False, 'allow_fallback': None if fb == 'explicit' else rng.choice([None, True, True, False]),
                 'pver': rng.choice(['lo', 'hi']), 'sub_overrides': rng.random() < 0.5,
@@ -264,8 +313,14 @@ def _kwargs_text(lk: dict, world: T.Optional[dict] = None) -> str:
         parts.append('static: ' + ('true' if lk['static'] else 'false'))
     if world and world.get('sub_dl_how') == 'default_options':
         parts.append(f"default_options: ['default_library={world['sub_dl_value']}']")
-    if lk['constraint'] is not None:
+    if isinstance(lk['constraint'], (list, tuple)):
+        parts.append('version: [' + ', '.join(f"'{c}'" for c in lk['constraint']) + ']')
+    elif lk['constraint'] is not None:
         parts.append(f"version: '{lk['constraint']}'")
+    if lk.get('nfm'):
+        # "An optional string that will be printed as a message() if the dependency was not found": no effect on
+        # what is returned
+        parts.append("not_found_message: 'c10: not found'")
     if not lk['required']:
         parts.append('required: false')
     if lk['allow_fallback'] is False and lk.get('afform') == 'emptyfb' and not lk['explicit']:
@@ -290,7 +345,8 @@ def a_world_files(world: dict, root: str = '') -> T.Tuple[T.Dict[str, T.Union[st
         for d, v in PCDIRS.items():
             files[f'pc{d}/{DEP}.pc'] = f'Name: {DEP}\nDescription: system {DEP} in {d}\nVersion: {v}\n'
     elif world['system'] is not None:
-        files[f'pc/{DEP}.pc'] = f'Name: {DEP}\nDescription: system {DEP}\nVersion: {world["system"]}\n'
+        ver = '' if world['system'] == 'unknown' else ' ' + world['system']
+        files[f'pc/{DEP}.pc'] = f'Name: {DEP}\nDescription: system {DEP}\nVersion:{ver}\n'
     else:
         files['pc/.keep'] = ''
     top = ["project('top', meson_version: '>=1.0')"]
@@ -396,7 +452,8 @@ def a_failing_sub_worlds(rng: random.Random, n: int) -> T.List[dict]:
         provide = kind == 'provide' or (kind == 'failed_sub' and rng.random() < 0.5)
 
         def first() -> dict:
-            return {'constraint': rng.choice([None, None, '>=2', '<2']), 'required': False,
+            return {'constraint': rng.choice([None, None, '>=2', '<2', MULTI]), 'required': False,
+                    'nfm': rng.random() < 0.35,
                     'allow_fallback': None if kind == 'explicit' else rng.choice([True, True, None]),
                     'explicit': kind == 'explicit',
                     'eform': rng.choice(['pair', 'single']) if sub_overrides else 'pair', 'afform': 'kw',
@@ -415,7 +472,7 @@ def a_failing_sub_worlds(rng: random.Random, n: int) -> T.List[dict]:
         if rng.random() < 0.25:
             seq[-1] = dict(seq[-1], required=True)
         out.append({
-            'system': rng.choice([None, None, None, '1.0', '2.0']),
+            'system': rng.choice([None, None, None, '1.0', '2.0', 'unknown']),
             'wrap_mode': rng.choice(['default', 'default', 'nodownload', 'forcefallback', 'nofallback']),
             'fff': rng.choice(['none', 'none', 'dep', 'sub']),
             'main_dl': 'shared', 'sub_dl_how': 'same', 'sub_dl_value': None,
